@@ -83,6 +83,13 @@ type FnCtx struct {
 	cellOnly  map[string][]*ssa.FreeVar
 	ghosts    map[string]Val
 	havocNext map[string]Term // allocation frontier at the point a havoc constant was introduced
+	retStates []retState
+	usedFC    map[*FuncContract]bool
+}
+
+type retState struct {
+	b  *ssa.BasicBlock
+	st *State
 }
 
 func freeVarNamed(fn *ssa.Function, name string) *ssa.FreeVar {
@@ -464,6 +471,8 @@ func (P *Prog) modComps(pkg *types.Package, m string) ([]string, error) {
 			return leafComps(t), nil
 		}
 		return []string{ptrComp(t)}, nil
+	case strings.HasPrefix(m, "ghost."):
+		return []string{"X$" + m[6:]}, nil
 	case strings.HasPrefix(m, "G."):
 		return []string{"G$" + pkg.Name() + "." + m[2:]}, nil
 	case strings.HasPrefix(m, "map."):
@@ -563,7 +572,7 @@ func newFnCtx(P *Prog, fn *ssa.Function, fc *FuncContract) *FnCtx {
 	fx := &FnCtx{P: P, fn: fn, fc: fc, key: fn.Pkg.Pkg.Name() + "." + fnKey(fn), declared: map[string]string{}, vals: map[ssa.Value]Term{},
 		tuples: map[ssa.Value][]Term{}, reach: map[*ssa.BasicBlock]Term{}, outSt: map[*ssa.BasicBlock]*State{}, edgeCond: map[[2]int]Term{},
 		compSort: map[string]string{}, written: map[string]bool{}, counter: map[string]int{}, closures: map[ssa.Value]*ssa.MakeClosure{},
-		allocByPos: map[token.Pos]*ssa.Alloc{}, notes: map[string]bool{}, paramTerm: map[string]Val{}, callCount: map[string]int{}, callees: map[string]bool{}, cellOnly: map[string][]*ssa.FreeVar{}, ghosts: map[string]Val{}, havocNext: map[string]Term{}}
+		allocByPos: map[token.Pos]*ssa.Alloc{}, notes: map[string]bool{}, paramTerm: map[string]Val{}, callCount: map[string]int{}, callees: map[string]bool{}, cellOnly: map[string][]*ssa.FreeVar{}, ghosts: map[string]Val{}, havocNext: map[string]Term{}, usedFC: map[*FuncContract]bool{}}
 	fx.mode = "int"
 	if fc.Mode != "" {
 		fx.mode = fc.Mode
@@ -719,7 +728,27 @@ func (fx *FnCtx) generate() {
 			}
 		}
 		sort.Strings(missing)
-		if len(missing) > 0 && fx.fc.Kind == "func" {
+		semantic := len(missing) > 0 && fx.fc.Kind == "func"
+		for _, c := range missing {
+			if c == "*" || fx.compSort[c] == "" || !strings.HasPrefix(fx.compSort[c], "(Array Int ") {
+				semantic = false
+			}
+		}
+		if semantic {
+			// the components are written, but possibly only inside objects allocated by this invocation:
+			// prove that every cell that existed at entry is unchanged at each return
+			for ri, rs := range fx.retStates {
+				for _, c := range missing {
+					sortc := fx.compSort[c]
+					h0 := fx.entry.getHeap(fx.P, c, sortc)
+					h1 := rs.st.getHeap(fx.P, c, sortc)
+					fx.curBlock = rs.b
+					goal := Term{fmt.Sprintf("(forall ((fr Int)) (! (=> (< fr next0) (= (select %s fr) (select %s fr))) :pattern ((select %s fr))))", h1.S, h0.S, h1.S), "Bool"}
+					fx.obligNamed(fmt.Sprintf("%s#frame.%s@r%d", fx.key, sanitize(c), ri), goal, "cells of "+c+" that existed at entry are unchanged (component not in modifies)", nil, "")
+				}
+			}
+			fx.curBlock = nil
+		} else if len(missing) > 0 && fx.fc.Kind == "func" {
 			fx.curBlock = nil
 			fx.obligNamed(fx.key+"#frame", tFalse, "function writes heap components not in its modifies clause: "+strings.Join(missing, ", "), nil, "")
 		} else if fx.fc.Kind == "func" && (len(fx.fc.Modifies) > 0 || fx.fc.Pure) {
@@ -799,6 +828,7 @@ func (fx *FnCtx) processBlock(b *ssa.BasicBlock) {
 	}
 	fx.curBlock = b
 	if li != nil {
+		fx.snapshotsBefore(li, st)
 		st = fx.enterLoop(li, st, preds)
 	}
 	fx.cur = st
@@ -816,9 +846,35 @@ func (fx *FnCtx) processBlock(b *ssa.BasicBlock) {
 	_ = P
 }
 
+// snapshotsBefore: ghost "let X = e @before loop k" values, defined on entry to loop k
+func (fx *FnCtx) snapshotsBefore(li *loopInfo, st *State) {
+	for _, ls := range fx.fc.Lets {
+		if !ls.Before || ls.Loop != li.ord {
+			continue
+		}
+		env := fx.env(st)
+		if li.bodyPos.IsValid() {
+			env.pos = li.bodyPos
+		}
+		v, err := env.elab(ls.E)
+		if err != nil {
+			fx.errf("binding failure: let %s in %s: %v", ls.Name, fx.key, err)
+			continue
+		}
+		name := "ghost_" + sanitize(ls.Name)
+		fx.declare(name, v.T.Sort)
+		g := Val{T: Term{name, v.T.Sort}, GoT: v.GoT}
+		fx.ghosts[ls.Name] = g
+		fx.assume(eq(g.T, v.T))
+	}
+}
+
 // snapshots: ghost "let X = e @after loop k" values, defined where control leaves loop k
 func (fx *FnCtx) snapshots(b *ssa.BasicBlock, preds []*ssa.BasicBlock, st *State) {
 	for _, ls := range fx.fc.Lets {
+		if ls.Before {
+			continue
+		}
 		if ls.Loop >= len(fx.loops) {
 			fx.errf("binding failure: let %s names loop %d but %s has %d loops", ls.Name, ls.Loop, fx.key, len(fx.loops))
 			continue
